@@ -7,7 +7,8 @@ EXTENDS Dnssec17, GenBase
 
 CONSTANTS Mode,      \* "keytag" | "ds" | "nsec3" | "cover" | "validity"
           Iters,     \* iteration counts for mode "nsec3"
-          KSmall     \* mode "keytag": every key over {00, ff} of at most this many octets
+          KSmall,    \* mode "keytag": every key over {00, ff} of at most this many octets
+          BigNames   \* mode "nsec3": iteration counts above 1000 only for the first BigNames names and salts of 0 / 8 octets
 
 VARIABLES v
 
@@ -102,6 +103,7 @@ Init ==
   \/ Mode = "keytag"   /\ v \in KeytagCases(0)
   \/ Mode = "ds"       /\ v \in (1..Len(DSOwners)) \X (0..4) \X DSTypes \X (1..Len(DSKeys))
   \/ Mode = "nsec3"    /\ v \in (1..Len(N3Names)) \X SaltLens \X Iters
+                       /\ (v[3] > 1000 => v[1] >= 2 /\ v[1] <= BigNames + 1 /\ v[2] \in {0, 8})
   \/ Mode = "cover"    /\ v \in (0..4) \X (0..4) \X (0..4) \X (1..Len(CPairs)) \X {0, 1}
   \/ Mode = "validity" /\ v \in VTs \X {0, 1} \X VOffs \X VOffs
 Next == UNCHANGED v
